@@ -388,6 +388,14 @@ func (ex *Exec) fmtOperand(verb byte, arg Value) ([]Value, string) {
 	switch x := v.(type) {
 	case string, *SymStr, *LazyStr, *VStr:
 		s := ex.forceStr(x)
+		if vs, ok := s.(*VStr); ok && verb == 'q' {
+			// %q of a symbolic choice of strings: quote every alternative
+			t := make([]string, len(vs.table))
+			for i, e := range vs.table {
+				t[i] = strconv.Quote(e)
+			}
+			return ex.strBytes(&VStr{sel: vs.sel, table: t}), ""
+		}
 		if o, ok := s.(*Opaque); ok {
 			return nil, o.why
 		}
